@@ -227,7 +227,7 @@ func dump(sb *strings.Builder, v reflect.Value, depth int) {
 		return
 	}
 	if DumpSkipSync {
-		if pp := v.Type().PkgPath(); pp == "sync" || pp == "sync/atomic" {
+		if pp := v.Type().PkgPath(); pp == "sync" || pp == "sync/atomic" || strings.HasSuffix(pp, "/verifrt/vsync") {
 			sb.WriteString("<" + v.Type().String() + ">")
 			return
 		}
